@@ -824,5 +824,8 @@ Proof.
   rewrite (count_repeat n 2) by (rewrite upd_length; vm_compute; lia).
   rewrite (count_repeat n 3) by (rewrite !upd_length; vm_compute; lia).
   rewrite Hn.
-  vm_compute. eexists. repeat split; reflexivity.
+  match goal with |- exists t, gen_optimal_table ?f = _ /\ _ => set (freq := f) end.
+  destruct (gen_optimal_table freq) as [e|t] eqn:E; vm_compute in E; [discriminate|].
+  exists t. split; [reflexivity|]. inversion E; subst t. clear E.
+  split; [reflexivity|]. split; vm_compute; reflexivity.
 Qed.
